@@ -153,3 +153,8 @@ func FSGlob(pattern string) ([]string, error) {
 	noteGlob(len(out) == 0)
 	return out, nil
 }
+
+// AnalyzerReset is installed by the overlay shim of checkers/analyzer: it puts
+// the analyzer's process-wide cache back to its initial state between
+// simulated driver processes.
+var AnalyzerReset func()
